@@ -83,6 +83,9 @@ type world struct {
 	served chan struct{}
 	srvErr error
 	loop   *sess.PeerLoop
+	// extraX decides, presence by presence, whether another <x/> follows the
+	// muc#user one (nil: never)
+	extraX func() bool
 
 	mu        sync.Mutex
 	queue     []*xmltree.Node
@@ -266,7 +269,13 @@ func (w *world) presenceItem(addr, typ, id string, self bool, aff, role string, 
 	for _, s := range status {
 		fmt.Fprintf(&sb, "<status code='%d'/>", s)
 	}
-	sb.WriteString("</x></presence>")
+	sb.WriteString("</x>")
+	if w.extraX != nil && w.extraX() {
+		// what clients add to their presence and rooms pass on: another element
+		// called x, in another namespace, after the muc#user one
+		sb.WriteString("<x xmlns='vcard-temp:x:update'><photo>sha1-hash-of-image</photo></x>")
+	}
+	sb.WriteString("</presence>")
 	t := "available"
 	if typ == "unavailable" {
 		t = "unavailable"
@@ -323,6 +332,10 @@ type inviteSpec struct {
 	Typed    bool   `json:"type_normal_attr,omitempty"`
 	Before   int    `json:"children_before"`
 	After    int    `json:"children_after"`
+	// Bare: the invitation names its inviter and nothing else (no reason, no
+	// password, no continue): <invite from='…'/>.  It cannot carry a marker, so
+	// bare invitations are counted.
+	Bare bool `json:"bare,omitempty"`
 }
 
 var noiseChildren = []string{
@@ -342,6 +355,16 @@ func (w *world) invite(iv inviteSpec) {
 	sb.WriteString(">")
 	for i := 0; i < iv.Before; i++ {
 		sb.WriteString(noiseChildren[i%len(noiseChildren)])
+	}
+	if iv.Bare {
+		sb.WriteString("<x xmlns='" + nsMUCUser + "'><invite from='crone1@example.net/desktop'/></x>")
+		for i := 0; i < iv.After; i++ {
+			sb.WriteString(noiseChildren[(i+2)%len(noiseChildren)])
+		}
+		sb.WriteString("</message>")
+		w.log.add(event{Ev: "invite", M: iv.Marker})
+		w.send(sb.String())
+		return
 	}
 	sb.WriteString("<x xmlns='" + nsMUCUser + "'><invite ")
 	if iv.ToForm {
